@@ -92,6 +92,305 @@ Proof.
     + intros Hb. discriminate.
 Qed.
 
+(* the same without any hypothesis on the buffer size: a non-empty prefix of the stream, never more than asked for *)
+Lemma rd_read_gen r len :
+  (0 < len)%nat -> stream r <> [] ->
+  exists k r', rd_read r len = (firstn k (stream r), None, r') /\ (1 <= k)%nat /\ (k <= len)%nat /\ (k <= length (stream r))%nat
+    /\ stream r' = skipn k (stream r) /\ r_size r' = r_size r.
+Proof.
+  intros Hl Hs. destruct r as [b rest size]. unfold stream in *. cbn [r_buf r_rest r_size] in *.
+  unfold rd_read. destruct len as [|len']; [lia|]. set (len := S len') in *. cbn [r_buf r_rest r_size].
+  destruct b as [|b0 b].
+  - destruct rest as [|x rest]; [exfalso; apply Hs; reflexivity|]. set (rs := x :: rest) in *.
+    assert (Hrl : (1 <= length rs)%nat) by (subst rs; simpl; lia).
+    cbn [app].
+    destruct (size <=? len)%nat eqn:E.
+    + apply Nat.leb_le in E. exists (Nat.min len (length rs)), (mkrd [] (skipn len rs) size).
+      cbn [r_buf r_rest r_size app]. repeat split; try lia.
+      * rewrite firstn_min_len. reflexivity.
+      * destruct (Nat.le_gt_cases len (length rs)).
+        -- rewrite Nat.min_l by lia. reflexivity.
+        -- rewrite Nat.min_r by lia. rewrite !skipn_all2; auto; lia.
+    + apply Nat.leb_gt in E.
+      exists (Nat.min len (length rs)), (mkrd (skipn len (firstn size rs)) (skipn size rs) size).
+      cbn [r_buf r_rest r_size app]. repeat split; try lia.
+      * rewrite firstn_min_len. rewrite firstn_firstn. rewrite Nat.min_l by lia. reflexivity.
+      * destruct (Nat.le_gt_cases len (length rs)).
+        -- rewrite Nat.min_l by lia. apply skipn_firstn_app. lia.
+        -- rewrite Nat.min_r by lia. rewrite (skipn_all2 (n:=len)) by (rewrite firstn_length; lia).
+           rewrite !skipn_all2; auto; lia.
+  - set (bb := b0 :: b) in *.
+    assert (Hbl : (1 <= length bb)%nat) by (subst bb; simpl; lia).
+    exists (Nat.min len (length bb)), (mkrd (skipn len bb) rest size).
+    cbn [r_buf r_rest r_size]. repeat split; try lia.
+    + rewrite firstn_app_le by lia. rewrite firstn_min_len. reflexivity.
+    + rewrite app_length. lia.
+    + destruct (Nat.le_gt_cases len (length bb)).
+      * rewrite Nat.min_l by lia. rewrite skipn_app_le by lia. reflexivity.
+      * rewrite Nat.min_r by lia. rewrite (skipn_all2 (n:=len)) by lia.
+        rewrite skipn_app. rewrite skipn_all, Nat.sub_diag. reflexivity.
+Qed.
+
+(* a read that asks for more than the file still holds: everything that is buffered (or, buffer empty, everything that
+   is left), whatever the requested length and the buffer size *)
+Lemma rd_read_beyond r len : (length (stream r) < len)%nat ->
+  rd_read r len =
+  match r_buf r with
+  | [] => match r_rest r with [] => ([], Some EOF, r) | rs => (rs, None, mkrd [] [] (r_size r)) end
+  | b => (b, None, mkrd [] (r_rest r) (r_size r))
+  end.
+Proof.
+  destruct r as [b rest size]. unfold stream. cbn [r_buf r_rest r_size]. intros H. rewrite app_length in H.
+  unfold rd_read. destruct len as [|len']; [lia|]. set (len := S len') in *. cbn [r_buf r_rest r_size].
+  destruct b as [|b0 b].
+  - destruct rest as [|x rest]; [reflexivity|]. set (rs := x :: rest) in *. cbn [length] in H.
+    destruct (size <=? len)%nat eqn:E.
+    + rewrite firstn_all2 by lia. rewrite skipn_all2 by lia. reflexivity.
+    + apply Nat.leb_gt in E. rewrite (firstn_all2 (n:=size)) by lia. rewrite firstn_all2 by lia.
+      rewrite !skipn_all2 by lia. reflexivity.
+  - set (bb := b0 :: b) in *. rewrite firstn_all2 by lia. rewrite skipn_all2 by lia. reflexivity.
+Qed.
+
+(* the cap of the executable model on the requested length: any two lengths beyond the end of the file give the same
+   data, the same error and the same reader *)
+Lemma rd_read_cap r l1 l2 : (length (stream r) < l1)%nat -> (length (stream r) < l2)%nat -> rd_read r l1 = rd_read r l2.
+Proof. intros H1 H2. rewrite (rd_read_beyond r l1 H1), (rd_read_beyond r l2 H2). reflexivity. Qed.
+
+(* ------------------------------------------------------------------ A3. ReadLockData through bufio = stream level *)
+Lemma firstn_add_skipn {A} (l : list A) a b : firstn a l ++ firstn b (skipn a l) = firstn (a + b) l.
+Proof.
+  revert l; induction a as [|a IH]; intros l; [reflexivity|]. destruct l as [|x l].
+  - cbn [firstn skipn app Nat.add]. rewrite !firstn_nil. reflexivity.
+  - cbn [firstn skipn app Nat.add]. rewrite IH. reflexivity.
+Qed.
+
+Lemma skipn_add_skipn {A} (l : list A) a b : skipn b (skipn a l) = skipn (a + b) l.
+Proof.
+  revert l; induction a as [|a IH]; intros l; [reflexivity|]. destruct l as [|x l].
+  - cbn [skipn Nat.add]. rewrite !skipn_nil. reflexivity.
+  - cbn [skipn Nat.add]. apply IH.
+Qed.
+
+(* a write at the end of the written prefix appends *)
+Lemma put_end buf d : put buf (length buf) d = buf ++ d.
+Proof.
+  unfold put, overwrite. replace (length buf + length d - length buf)%nat with (length d) by lia.
+  rewrite firstn_app_le by lia. rewrite firstn_all.
+  rewrite skipn_all2 by (rewrite app_length, repeat_length; lia). rewrite app_nil_r. reflexivity.
+Qed.
+
+Lemma put_at_end buf pos d : length buf = pos -> put buf pos d = buf ++ d.
+Proof. intros <-. apply put_end. Qed.
+
+Lemma fill_0 r buf off n want : fill 0 r buf off n want = if (want <=? n)%nat then inl (buf, r) else inr EFuel.
+Proof. reflexivity. Qed.
+
+Lemma fill_S f r buf off n want :
+  fill (S f) r buf off n want =
+  if (want <=? n)%nat then inl (buf, r)
+  else let '(d, e, r1) := rd_read r (want + off - (n + off)) in
+       match e with Some e => inr e | None => fill f r1 (put buf (n + off) d) off (n + length d) want end.
+Proof. reflexivity. Qed.
+
+(* the continuation loop: enough bytes left => exactly the missing bytes are appended, however the reads are cut *)
+Lemma fill_ok : forall fuel r buf off n want,
+  (want - n <= fuel)%nat -> length buf = (n + off)%nat -> (want - n <= length (stream r))%nat ->
+  exists r', fill fuel r buf off n want = inl (buf ++ firstn (want - n) (stream r), r')
+    /\ stream r' = skipn (want - n) (stream r) /\ r_size r' = r_size r.
+Proof.
+  induction fuel as [|fuel IH]; intros r buf off n want Hf Hb Hs.
+  - rewrite fill_0. assert (E : (want <=? n)%nat = true) by (apply Nat.leb_le; lia). rewrite E.
+    replace (want - n)%nat with 0%nat by lia. cbn [firstn skipn]. rewrite app_nil_r. eauto.
+  - rewrite fill_S. destruct (want <=? n)%nat eqn:E.
+    + apply Nat.leb_le in E. replace (want - n)%nat with 0%nat by lia. cbn [firstn skipn]. rewrite app_nil_r. eauto.
+    + apply Nat.leb_gt in E. replace (want + off - (n + off))%nat with (want - n)%nat by lia.
+      assert (Hne : stream r <> []) by (intro X; rewrite X in Hs; simpl in Hs; lia).
+      destruct (rd_read_gen r (want - n) ltac:(lia) Hne) as (k & r1 & Hrd & Hk1 & Hk2 & Hk3 & Hst & Hsz).
+      rewrite Hrd. cbv beta iota zeta.
+      assert (Hdl : length (firstn k (stream r)) = k) by (rewrite firstn_length; lia).
+      rewrite Hdl. rewrite (put_at_end buf (n + off) _ Hb).
+      destruct (IH r1 (buf ++ firstn k (stream r)) off (n + k)%nat want) as (r' & Hfl & Hst' & Hsz').
+      * lia.
+      * rewrite app_length, Hdl. lia.
+      * rewrite Hst, skipn_length. lia.
+      * exists r'. rewrite Hfl. split; [|split].
+        -- rewrite Hst. rewrite <- app_assoc. rewrite firstn_add_skipn.
+           replace (k + (want - (n + k)))%nat with (want - n)%nat by lia. reflexivity.
+        -- rewrite Hst', Hst, skipn_add_skipn. f_equal. lia.
+        -- lia.
+Qed.
+
+(* ... fewer bytes left than missing => io.EOF (the loop reads on until the file is exhausted) *)
+Lemma fill_short : forall fuel r buf off n want,
+  (want - n <= fuel)%nat -> (length (stream r) < want - n)%nat -> fill fuel r buf off n want = inr EOF.
+Proof.
+  induction fuel as [|fuel IH]; intros r buf off n want Hf Hs; [lia|].
+  rewrite fill_S. assert (E : (want <=? n)%nat = false) by (apply Nat.leb_gt; lia). rewrite E.
+  replace (want + off - (n + off))%nat with (want - n)%nat by lia.
+  assert (Hcase : stream r = [] \/ stream r <> []) by (destruct (stream r); [left; reflexivity|right; discriminate]).
+  destruct Hcase as [He|Hne].
+  - rewrite rd_read_eof by (auto; lia). reflexivity.
+  - destruct (rd_read_gen r (want - n) ltac:(lia) Hne) as (k & r1 & Hrd & Hk1 & Hk2 & Hk3 & Hst & Hsz).
+    rewrite Hrd. cbv beta iota zeta. rewrite firstn_length. rewrite Nat.min_l by lia.
+    apply IH; [lia|]. rewrite Hst, skipn_length. lia.
+Qed.
+
+Lemma put_nil d : put [] 0 d = d.
+Proof. apply (put_end [] d). Qed.
+
+Lemma read_prefix_ok r : (4 <= length (stream r))%nat ->
+  exists r2, read_prefix r = inl (firstn 4 (stream r), r2) /\ stream r2 = skipn 4 (stream r) /\ r_size r2 = r_size r.
+Proof.
+  intros H4. unfold read_prefix.
+  assert (Hne : stream r <> []) by (intro X; rewrite X in H4; simpl in H4; lia).
+  destruct (rd_read_gen r 4 ltac:(lia) Hne) as (k & r1 & Hrd & Hk1 & Hk2 & Hk3 & Hst & Hsz).
+  rewrite Hrd. rewrite put_nil.
+  assert (Hdl : length (firstn k (stream r)) = k) by (rewrite firstn_length; lia).
+  rewrite Hdl.
+  destruct (fill_ok 4 r1 (firstn k (stream r)) 0 k 4) as (r2 & Hfl & Hst2 & Hsz2).
+  - lia.
+  - rewrite Hdl. lia.
+  - rewrite Hst, skipn_length. lia.
+  - exists r2. rewrite Hfl. split; [|split].
+    + rewrite Hst, firstn_add_skipn. replace (k + (4 - k))%nat with 4%nat by lia. reflexivity.
+    + rewrite Hst2, Hst, skipn_add_skipn. f_equal. lia.
+    + lia.
+Qed.
+
+Lemma read_prefix_short r : (length (stream r) < 4)%nat -> read_prefix r = inr EOF.
+Proof.
+  intros H4. unfold read_prefix.
+  assert (Hcase : stream r = [] \/ stream r <> []) by (destruct (stream r); [left; reflexivity|right; discriminate]).
+  destruct Hcase as [He|Hne].
+  - rewrite rd_read_eof by (auto; lia). reflexivity.
+  - destruct (rd_read_gen r 4 ltac:(lia) Hne) as (k & r1 & Hrd & Hk1 & Hk2 & Hk3 & Hst & Hsz).
+    rewrite Hrd. rewrite firstn_length. rewrite Nat.min_l by lia.
+    apply fill_short; [lia|]. rewrite Hst, skipn_length. lia.
+Qed.
+
+Lemma read_payload_ok want lb r2 : (0 < want)%nat -> length lb = 4%nat -> (want <= length (stream r2))%nat ->
+  exists r4, read_payload want lb r2 = inl (lb ++ firstn want (stream r2), r4)
+    /\ stream r4 = skipn want (stream r2) /\ r_size r4 = r_size r2.
+Proof.
+  intros Hw Hlb Hs. unfold read_payload.
+  assert (Hne : stream r2 <> []) by (intro X; rewrite X in Hs; simpl in Hs; lia).
+  destruct (rd_read_gen r2 want Hw Hne) as (k & r3 & Hrd & Hk1 & Hk2 & Hk3 & Hst & Hsz).
+  rewrite Hrd.
+  assert (Hdl : length (firstn k (stream r2)) = k) by (rewrite firstn_length; lia).
+  rewrite Hdl. rewrite (put_at_end lb 4 _ Hlb).
+  destruct (fill_ok want r3 (lb ++ firstn k (stream r2)) 4 k want) as (r4 & Hfl & Hst4 & Hsz4).
+  - lia.
+  - rewrite app_length, Hdl. lia.
+  - rewrite Hst, skipn_length. lia.
+  - exists r4. rewrite Hfl.
+    assert (Hv : (lb ++ firstn k (stream r2)) ++ firstn (want - k) (stream r3) = lb ++ firstn want (stream r2)).
+    { rewrite Hst, <- app_assoc, firstn_add_skipn. replace (k + (want - k))%nat with want by lia. reflexivity. }
+    rewrite Hv. split; [|split].
+    + replace (want + 4 - length (lb ++ firstn want (stream r2)))%nat with 0%nat
+        by (rewrite app_length, firstn_length; lia).
+      cbn [repeat]. rewrite app_nil_r. reflexivity.
+    + rewrite Hst4, Hst, skipn_add_skipn. f_equal. lia.
+    + lia.
+Qed.
+
+Lemma read_payload_short want lb r2 : (length (stream r2) < want)%nat -> read_payload want lb r2 = inr EOF.
+Proof.
+  intros Hs. unfold read_payload.
+  assert (Hcase : stream r2 = [] \/ stream r2 <> []) by (destruct (stream r2); [left; reflexivity|right; discriminate]).
+  destruct Hcase as [He|Hne].
+  - rewrite rd_read_eof by (auto; lia). reflexivity.
+  - destruct (rd_read_gen r2 want ltac:(lia) Hne) as (k & r3 & Hrd & Hk1 & Hk2 & Hk3 & Hst & Hsz).
+    rewrite Hrd. rewrite firstn_length. rewrite Nat.min_l by lia.
+    rewrite fill_short; [reflexivity|lia|]. rewrite Hst, skipn_length. lia.
+Qed.
+
+(* what the theorems need of the payload length handed to the reads: the exact length when the file holds that many
+   bytes, otherwise anything beyond the end of the file *)
+Definition want_ok (wantf : N -> rd -> nat) : Prop :=
+  forall dl r, (dl <= N.of_nat (length (stream r)) -> wantf dl r = N.to_nat dl)
+            /\ (N.of_nat (length (stream r)) < dl -> (length (stream r) < wantf dl r)%nat).
+
+Lemma want_all_ok : want_ok want_all.
+Proof. intros dl r. unfold want_all. split; [reflexivity|lia]. Qed.
+
+Lemma want_cap_ok : want_ok want_cap.
+Proof.
+  intros dl r. unfold want_cap. split; intros H.
+  - rewrite N.min_l by lia. reflexivity.
+  - rewrite N.min_r by lia. lia.
+Qed.
+
+(* bufio elimination for values: for EVERY reader state (any buffer size, any split of the stream between the buffered
+   part and the rest of the file) the byte-exact ReadLockData agrees with the stream-level specification *)
+Lemma read_data_gen_stream wantf r : want_ok wantf ->
+  match read_data (Some (stream r)) with
+  | inl (v, os) => exists r', read_data_gen wantf (Some r) = inl (v, r') /\ os = Some (stream r') /\ r_size r' = r_size r
+  | inr e => read_data_gen wantf (Some r) = inr e
+  end.
+Proof.
+  intros Hw. unfold read_data, read_data_gen. set (s := stream r).
+  destruct (length s <? 4)%nat eqn:E4.
+  - apply Nat.ltb_lt in E4. rewrite read_prefix_short by exact E4. reflexivity.
+  - apply Nat.ltb_ge in E4. destruct (read_prefix_ok r E4) as (r2 & -> & Hst2 & Hsz2). fold s in Hst2 |- *.
+    set (dl := unle (firstn 4 s)).
+    assert (Hl2 : length (stream r2) = (length s - 4)%nat) by (rewrite Hst2, skipn_length; reflexivity).
+    destruct (Hw dl r2) as [Hwle Hwgt]. rewrite Hl2 in Hwle, Hwgt.
+    destruct (N.of_nat (length s - 4) <? dl) eqn:Ed.
+    + apply N.ltb_lt in Ed.
+      assert (E0 : (dl =? 0) = false) by (apply N.eqb_neq; lia). rewrite E0.
+      apply read_payload_short. rewrite Hl2. auto.
+    + apply N.ltb_ge in Ed. destruct (dl =? 0) eqn:E0.
+      * apply N.eqb_eq in E0. rewrite E0. cbn [N.to_nat]. rewrite Nat.add_0_r.
+        exists r2. split; [reflexivity|]. split; [rewrite Hst2; reflexivity|exact Hsz2].
+      * apply N.eqb_neq in E0. rewrite (Hwle Ed).
+        destruct (read_payload_ok (N.to_nat dl) (firstn 4 s) r2) as (r4 & Hrp & Hst4 & Hsz4).
+        -- lia.
+        -- rewrite firstn_length. lia.
+        -- rewrite Hl2. lia.
+        -- exists r4. rewrite Hrp. split; [|split].
+           ++ rewrite Hst2, firstn_add_skipn. reflexivity.
+           ++ rewrite Hst4, Hst2, skipn_add_skipn. reflexivity.
+           ++ lia.
+Qed.
+
+Lemma read_data_b_stream r :
+  match read_data (Some (stream r)) with
+  | inl (v, os) => exists r', read_data_b (Some r) = inl (v, r') /\ os = Some (stream r') /\ r_size r' = r_size r
+  | inr e => read_data_b (Some r) = inr e
+  end.
+Proof. apply read_data_gen_stream, want_cap_ok. Qed.
+
+(* the form used by Properties/C08.v *)
+Theorem value_reader_is_stream_reader r :
+  (forall v s', read_data (Some (stream r)) = inl (v, Some s') ->
+     exists r', read_data_b (Some r) = inl (v, r') /\ stream r' = s' /\ r_size r' = r_size r) /\
+  (forall e, read_data (Some (stream r)) = inr e -> read_data_b (Some r) = inr e).
+Proof.
+  pose proof (read_data_b_stream r) as H. split.
+  - intros v s' E. rewrite E in H. destruct H as (r' & H1 & H2 & H3). exists r'. injection H2 as H2. auto.
+  - intros e E. rewrite E in H. exact H.
+Qed.
+
+Lemma read_data_no_fuel dat : read_data dat <> inr EFuel.
+Proof.
+  unfold read_data. destruct dat as [s|]; [|discriminate].
+  destruct (length s <? 4)%nat; [discriminate|]. destruct (N.of_nat (length s - 4) <? unle (firstn 4 s)); discriminate.
+Qed.
+
+(* the cap on the requested length is behaviour preserving: the executable reader and the reader that hands dataLen
+   itself to bufio (as the code does) return the same value / error and the same reader, for every reader state *)
+Theorem read_data_cap_preserving dr : read_data_b dr = read_data_u dr.
+Proof.
+  destruct dr as [r|]; [|reflexivity]. unfold read_data_b, read_data_u, read_data_gen.
+  destruct (read_prefix r) as [[lb r2]|e]; [|reflexivity].
+  destruct (unle lb =? 0); [reflexivity|].
+  destruct (N.le_gt_cases (unle lb) (N.of_nat (length (stream r2)))) as [Hle|Hgt].
+  - rewrite (proj1 (want_cap_ok (unle lb) r2) Hle), (proj1 (want_all_ok (unle lb) r2) Hle). reflexivity.
+  - rewrite !read_payload_short; [reflexivity| |].
+    + apply (proj2 (want_all_ok (unle lb) r2)). lia.
+    + apply (proj2 (want_cap_ok (unle lb) r2)). lia.
+Qed.
+
 (* ------------------------------------------------------------------ A2. ReadLock at stream level *)
 Definition wf64 (rec : bytes) : Prop := length rec = 64%nat /\ nthb rec 0 = 62 /\ nthb rec 1 = 0.
 Definition lbuf_ok (lb : bytes) : Prop := length lb = 64%nat /\ nthb lb 1 = 0.
@@ -232,12 +531,14 @@ Fixpoint list_loop (now : Z) (recs : list bytes) (dat : option bytes) : list ite
 
 Definition fixed_reader (fx : fixes) : Prop := fx_rl_nerr fx = true /\ fx_rl_short fx = true.
 
-Lemma load_loop_stream fx now recs : forall fuel r dat lbuf tail,
+Lemma load_loop_stream fx now recs : forall fuel r dr lbuf tail,
   (length recs < fuel)%nat -> (64 <= r_size r)%nat ->
   stream r = concat recs ++ tail -> Forall wf64 recs -> tail_ok tail -> (tail = [] \/ fixed_reader fx) -> lbuf_ok lbuf ->
-  exists lb, load_loop fx now fuel r dat lbuf = (fst (list_loop now recs dat), snd (list_loop now recs dat), lb) /\ lbuf_ok lb.
+  exists lb, load_loop fx now fuel r dr lbuf
+               = (fst (list_loop now recs (option_map stream dr)), snd (list_loop now recs (option_map stream dr)), lb)
+             /\ lbuf_ok lb.
 Proof.
-  induction recs as [|rec recs IH]; intros fuel r dat lbuf tail Hf Hsz Hs Hwf Ht Hfx Hlb.
+  induction recs as [|rec recs IH]; intros fuel r dr lbuf tail Hf Hsz Hs Hwf Ht Hfx Hlb.
   - destruct fuel; [simpl in Hf; lia|]. cbn [load_loop list_loop fst snd]. simpl in Hs.
     destruct tail as [|t0 tail'].
     + rewrite readlock_eof by auto. eauto.
@@ -251,12 +552,59 @@ Proof.
     cbn [list_loop].
     assert (Hlb' : lbuf_ok rec) by (apply wf64_lbuf_ok; auto).
     destruct (has_data rec).
-    + destruct (read_data dat) as [[v dat']|e].
-      * destruct (IH fuel r' dat' rec tail ltac:(simpl in Hf; lia) ltac:(lia) Hs' Hwf' Ht Hfx Hlb') as (lb & -> & Hok).
-        destruct (list_loop now recs dat') as [its st]. cbn [fst snd]. eauto.
-      * destruct e; cbn [fst snd]; eauto.
-    + destruct (IH fuel r' dat rec tail ltac:(simpl in Hf; lia) ltac:(lia) Hs' Hwf' Ht Hfx Hlb') as (lb & -> & Hok).
-      destruct (list_loop now recs dat) as [its st]. cbn [fst snd]. eauto.
+    + destruct dr as [rr|].
+      * cbn [option_map]. pose proof (read_data_b_stream rr) as Hrd.
+        pose proof (read_data_no_fuel (Some (stream rr))) as Hnf.
+        destruct (read_data (Some (stream rr))) as [[v os]|e].
+        -- destruct Hrd as (rr' & -> & -> & _).
+           destruct (IH fuel r' (Some rr') rec tail ltac:(simpl in Hf; lia) ltac:(lia) Hs' Hwf' Ht Hfx Hlb') as (lb & -> & Hok).
+           cbn [option_map]. destruct (list_loop now recs (Some (stream rr'))) as [its st]. cbn [fst snd]. eauto.
+        -- rewrite Hrd. destruct e; cbn [fst snd]; eauto. exfalso; apply Hnf; reflexivity.
+      * cbn [option_map read_data read_data_b read_data_gen]. cbn [fst snd]. eauto.
+    + destruct (IH fuel r' dr rec tail ltac:(simpl in Hf; lia) ltac:(lia) Hs' Hwf' Ht Hfx Hlb') as (lb & -> & Hok).
+      destruct (list_loop now recs (option_map stream dr)) as [its st]. cbn [fst snd]. eauto.
+Qed.
+
+(* the loader depends on the reader of the value file only through its stream: buffer size and buffered part are
+   invisible (for EVERY record file, well formed or not) *)
+Lemma load_loop_dat_indep fx now : forall fuel r dr1 dr2 lbuf,
+  option_map stream dr1 = option_map stream dr2 -> load_loop fx now fuel r dr1 lbuf = load_loop fx now fuel r dr2 lbuf.
+Proof.
+  induction fuel as [|fuel IH]; intros r dr1 dr2 lbuf Hs; [reflexivity|].
+  cbn [load_loop]. destruct (read_lock fx r lbuf) as [[oe lb'] r']. destruct oe as [e|]; [reflexivity|].
+  destruct (has_data lb').
+  - destruct dr1 as [r1|], dr2 as [r2|]; try discriminate; [|reflexivity].
+    cbn [option_map] in Hs. injection Hs as Hs.
+    pose proof (read_data_b_stream r1) as H1. pose proof (read_data_b_stream r2) as H2. rewrite Hs in H1.
+    destruct (read_data (Some (stream r2))) as [[v os]|e].
+    + destruct H1 as (r1' & -> & E1 & _). destruct H2 as (r2' & -> & E2 & _).
+      rewrite (IH r' (Some r1') (Some r2') lb'); [reflexivity|]. cbn [option_map]. rewrite <- E1, <- E2. reflexivity.
+    + rewrite H1, H2. reflexivity.
+  - rewrite (IH r' dr1 dr2 lb' Hs). reflexivity.
+Qed.
+
+Lemma dat_rd_stream bs d : stream (dat_rd bs d) = d.
+Proof. reflexivity. Qed.
+
+(* LoadAofFile with the value reader exactly as the code creates it (bufio.NewReaderSize(dataFile, bufSize*64)) *)
+Definition load_file_code (fx : fixes) (bs : nat) (now : Z) (aof dat : option bytes) (lbuf : bytes)
+  : list item * status * bytes :=
+  match aof with
+  | None => ([], SFail ENoFile, lbuf)
+  | Some a =>
+    match read_header fx (new_rd bs a) with
+    | (Some EOF, _) => ([], SStop, lbuf)
+    | (Some e, _) => ([], SFail e, lbuf)
+    | (None, r) => load_loop fx now (S (length a)) r (option_map (dat_rd_code bs) dat) lbuf
+    end
+  end.
+
+(* the cap on the buffer size of the value reader in the executable model cannot be observed *)
+Theorem load_file_dat_rd fx bs now aof dat lbuf : load_file fx bs now aof dat lbuf = load_file_code fx bs now aof dat lbuf.
+Proof.
+  unfold load_file, load_file_code. destruct aof as [a|]; [|reflexivity].
+  destruct (read_header fx (new_rd bs a)) as [[e|] r]; [reflexivity|].
+  apply load_loop_dat_indep. destruct dat; reflexivity.
 Qed.
 
 (* ------------------------------------------------------------------ C. the abstract loader delivers a prefix *)
@@ -315,6 +663,32 @@ Proof.
   { apply N.ltb_lt. rewrite Hv, app_length. lia. }
   rewrite E2. reflexivity.
 Qed.
+
+(* a well-formed value at the head of the stream is delivered byte-exactly and the next value starts at the right
+   place, wherever the buffer boundary falls (inside the length prefix, inside the payload, several refills) *)
+Theorem value_straddles_buffer r v D' : wf_val v -> stream r = v ++ D' ->
+  exists r', read_data_b (Some r) = inl (v, r') /\ stream r' = D' /\ r_size r' = r_size r.
+Proof.
+  intros Hv Hs. apply (proj1 (value_reader_is_stream_reader r)). rewrite Hs. apply read_data_full; auto.
+Qed.
+
+(* a value cut short (crash inside the value write) is end of log, whatever the reader state *)
+Theorem value_truncated_is_eof r v rest : wf_val v -> v = stream r ++ rest -> rest <> [] -> read_data_b (Some r) = inr EOF.
+Proof.
+  intros Hv Hs Hne. apply (proj2 (value_reader_is_stream_reader r)). apply (read_data_short v (stream r) rest); auto.
+Qed.
+
+(* a concrete reader state for the non-vacuity examples: buffer size 16; two bytes of the length prefix of a 44-byte
+   value are buffered, the other two and the payload are still in the file, followed by a second (5-byte) value:
+   Read(dlbuf) returns 2 bytes, the first continuation loop refills (16 bytes) and takes 2, Read(aofLockData[4:])
+   returns the 14 buffered bytes, the second continuation loop reads the missing 26 bytes directly from the file *)
+Definition x_val : bytes := [40; 0; 0; 0] ++ map N.of_nat (seq 1 40).
+Definition x_next : bytes := [1; 0; 0; 0; 9].
+Definition x_rd : rd := mkrd [40; 0] (skipn 2 x_val ++ x_next) 16.
+Definition x_rd_cut : rd := mkrd [40; 0] (firstn 30 (skipn 2 x_val)) 16.
+
+Lemma x_val_wf : wf_val x_val.
+Proof. split; [simpl; lia|reflexivity]. Qed.
 
 Lemma list_loop_prefix now : forall its D rest,
   Forall wf_item its -> vals its = D ++ rest ->
@@ -421,11 +795,13 @@ Proof.
   destruct (read_header_ok fx bs (concat (recs_of (firstn n its)) ++ tail)) as (r & -> & Hs & Hsz).
   assert (Hwfn : Forall wf_item (firstn n its)) by (apply Forall_firstn; auto).
   assert (Hw64 : Forall wf64 (recs_of (firstn n its))) by (apply wf_items_recs; auto).
+  cbn [option_map].
   destruct (load_loop_stream fx now (recs_of (firstn n its))
-              (S (length (header ++ concat (recs_of (firstn n its)) ++ tail))) r (Some D) lbuf tail) as (lb & -> & Hok); auto.
+              (S (length (header ++ concat (recs_of (firstn n its)) ++ tail))) r (Some (dat_rd bs D)) lbuf tail) as (lb & -> & Hok); auto.
   - rewrite !app_length, concat_recs_length by auto. unfold bytes. lia.
   - lia.
-  - destruct (list_loop_prefix now (firstn n its) D rest Hwfn Hv) as (k & st & -> & Hst & Hk & Hfull).
+  - cbn [option_map]. rewrite dat_rd_stream. unfold bytes in *.
+    destruct (list_loop_prefix now (firstn n its) D rest Hwfn Hv) as (k & st & -> & Hst & Hk & Hfull).
     cbn [fst snd]. rewrite firstn_firstn. rewrite firstn_length in Hk.
     exists (Nat.min k n), st, lb. split; [reflexivity|]. split; [exact Hst|]. split; [lia|]. split; [exact Hok|].
     intros Hr. destruct (Hfull Hr) as [-> ->]. rewrite firstn_length. split; [lia|reflexivity].
